@@ -2,8 +2,12 @@
 /// structural identity of two nodes (does_node_match_exactly); reflexive by the node-id short cut
 pub uninterp spec fn same_shape(a: GNode, b: GNode) -> bool;
 pub open spec fn seq_view<'t, D: Doc>(v: Seq<Node<'t, D>>) -> Seq<GNode> { v.map_values(|n: Node<'t, D>| n@) }
+pub open spec fn named_only(s: Seq<GNode>) -> Seq<GNode> { s.filter(|n: GNode| n.named) }
 /// two sibling runs agree on their named nodes, pairwise structurally identical
-pub uninterp spec fn same_shape_multi(a: Seq<GNode>, b: Seq<GNode>) -> bool;
+pub open spec fn same_shape_multi(a: Seq<GNode>, b: Seq<GNode>) -> bool {
+    let (na, nb) = (named_only(a), named_only(b));
+    na.len() == nb.len() && forall|i: int| 0 <= i < na.len() ==> same_shape(#[trigger] na[i], nb[i])
+}
 
 pub open spec fn insert_ok(e: GEnv, id: Seq<char>, n: GNode) -> bool {
     e.single.dom().contains(id) ==> same_shape(e.single[id], n)
